@@ -283,6 +283,11 @@ def run(ch, config, res):
                         break
                     if o.kind == "hang":
                         break
+                    if o.writes:
+                        # a client that writes a command in several pieces was interrupted between two of them: the stream
+                        # is cut inside a command and nothing sensible can follow on this connection (no verdict)
+                        res.count("ended:send-fault-inside-a-command")
+                        break
                     continue
                 emu = meth == "renamescript" and not version
                 cl = classes_of(args)
